@@ -18,6 +18,8 @@ theorem loop_shape_as_modelled :
     indexing by the selected index, the selection loop itself, the driver loop, construction -/
 def allowedUses : List (String × String × String) := [
   ("hlsl/src/ast_generate.rs", "context.module", "index:pipeline"),
+  -- generate_module: names of the selected pipeline's entry functions (index = module.selected_pipeline)
+  ("hlsl/src/ast_generate.rs", "module", "index:pipeline"),
   ("ir/src/ir_module.rs", "self", "index:index"),
   ("ir/src/ir_module.rs", "self", "method:iter"),
   ("msl/src/generator.rs", "module", "index:selected_pipeline"),
